@@ -78,6 +78,10 @@ def strategy(tier):
         eintr=st.sets(st.integers(0, 12), max_size=3),
         repeat=st.integers(0, 2),
         callback=st.booleans(),
+        # wait_procs(): the same process given more than once (the same object
+        # again / a second, equal Process object), as p.children() +
+        # p.children(recursive=True) does
+        dups=st.lists(st.tuples(st.integers(0, 7), st.booleans()), max_size=2),
     ))
 
 
@@ -312,7 +316,17 @@ def run_case(case):
             cb = (lambda p: called.append(p)) if case["callback"] else None
             t_call = k.now
             try:
-                gone, alive = psutil.wait_procs(objs, timeout=timeout, callback=cb)
+                inp = list(objs)
+                for di, same in case.get("dups", ()):
+                    o_ = objs[di % len(objs)]
+                    if same:
+                        inp.append(o_)
+                    else:
+                        try:
+                            inp.append(psutil.Process(o_.pid))
+                        except psutil.Error:
+                            pass
+                gone, alive = psutil.wait_procs(inp, timeout=timeout, callback=cb)
                 exc = None
             except BaseException as e:  # noqa: BLE001
                 exc = e
@@ -326,9 +340,14 @@ def run_case(case):
                 import traceback
                 raise Violation("wait_procs-exception", f"{desc}: {exc!r} "
                                 + "".join(traceback.format_exception(type(exc), exc, exc.__traceback__))[-400:])
-            if len(gone) + len(alive) != len(objs) or {id(x) for x in gone} & {id(x) for x in alive} \
-                    or {id(x) for x in gone} | {id(x) for x in alive} != {id(x) for x in objs}:
-                raise Violation("wait_procs-partition", f"{desc}: gone={gone} alive={alive}")
+            # every input process exactly once, as one of the objects passed in
+            out_pids = sorted(x.pid for x in list(gone) + list(alive))
+            if out_pids != sorted({o.pid for o in inp}) \
+                    or not all(any(x is o for o in inp) for x in list(gone) + list(alive)):
+                raise Violation("wait_procs-partition",
+                                f"{desc}: input pids {[o.pid for o in inp]}, gone={gone} alive={alive}")
+            if len(inp) > len(objs):
+                labels.add("wait_procs-duplicate-input")
             last_poll = {}
             for e in k.log:
                 if e is not None and e["op"] in ("waitpid", "kill", "open", "read") and e.get("pid") is not None:
@@ -342,9 +361,9 @@ def run_case(case):
                 if not hasattr(p, "returncode") or p.returncode != want:
                     raise Violation("wait_procs-returncode", f"{desc}: pid {pid} returncode "
                                     f"{getattr(p, 'returncode', '<unset>')!r} expected {want!r}")
-                if case["callback"] and sum(1 for c in called if c is p) != 1:
+                if case["callback"] and sum(1 for c in called if c.pid == p.pid) != 1:
                     raise Violation("wait_procs-callback", f"{desc}: callback called "
-                                    f"{sum(1 for c in called if c is p)} times for pid {pid}")
+                                    f"{sum(1 for c in called if c.pid == p.pid)} times for pid {pid}")
             eintr_pids = {e["pid"] for e in k.log if e is not None and e.get("result") == "EINTR"}
             for p in alive:
                 pid, kind, et, status = spec_by_pid[p.pid]
@@ -354,7 +373,7 @@ def run_case(case):
                     raise Violation("wait_procs-alive-nonexistent", f"{desc}: pid {pid} never existed")
                 if et is not None and et + EPS < t_call:
                     raise Violation("wait_procs-alive-but-exited-before-call", f"{desc}: pid {pid}")
-                if case["callback"] and any(c is p for c in called):
+                if case["callback"] and any(c.pid == p.pid for c in called):
                     raise Violation("wait_procs-callback-alive", f"{desc}: callback for alive pid {pid}")
             if timeout is None and alive:
                 raise Violation("wait_procs-alive-without-timeout", f"{desc}: {alive}")
